@@ -3,9 +3,11 @@
    OCaml's; N, Z, positive, nat, ascii, string stay Coq datatypes. *)
 Require Extraction.
 Require Import ExtrOcamlBasic.
-From GV Require Import Enc.Enc Disk.Disk Disk.Reopen Conc.Lin Conc.LinCheck Conc.DiskLin Fs.Fs Conc.FsConc Prims.Prims TestGen.TestGen.
+From GV Require Import Enc.Enc Disk.Disk Disk.Reopen Conc.Lin Conc.LinCheck Conc.DiskLin Fs.Fs Conc.FsConc Prims.Prims TestGen.TestGen Tr.Header Tr.Cli.
+From GVGen Require Import GenTables.
 Extraction Language OCaml.
 From Coq Require Import NArith ZArith.
 Extraction "models.ml" N.add Z.add Z.mul put_le get_le
   regs_init regs_step mem_init mem_step file_init file_step open_disk close_disk disk_lin_check
-  fs_init ref_step memfs_init memfs_step fs_lin_check to_string of_string gen_go gen_coq tests_of_dir.
+  fs_init ref_step memfs_init memfs_step fs_lin_check to_string of_string gen_go gen_coq tests_of_dir
+  visit_root get_ffi header_footer print_imports output_path builtin_imports ffi_mapping cli.
